@@ -132,6 +132,32 @@ theorem refresh_lock_premise (sends write : Bool) (h : lockOk sends write = true
     write = true := by
   subst hs; simpa [lockOk] using h
 
+/-! ## known finding: an emptied prefix-set matched with INVERT
+
+  Full statement (FALSE of the code): "a prefix-set condition depends only on the set's current
+  members, the option and the route", i.e. `∀ setFam, pfxCondCode setFam routeFam opt es k =
+  pfxCondModel opt es k`. The code also reads the address family recorded in the set object,
+  which for an EMPTY set depends on how it became empty. -/
+
+/-- the witness replayed on the real code by the corpus case
+    `known-emptied-prefix-set-invert`: INVERT over a set emptied in place (family of the removed
+    member kept) is true, over a set configured empty (no family) it is false -/
+theorem emptied_prefix_set_invert_counterexample :
+    pfxCondCode (some 1) 1 2 [] 0 = true ∧ pfxCondCode none 1 2 [] 0 = false := by decide
+
+/-- whenever the set object's family is the route's family — every non-empty set the harness
+    builds, and every set emptied in place — the code's condition is the one `Stmt.matches`
+    uses; the theorems above are about that condition -/
+theorem prefix_condition_family_partial (setFam : Option Nat) (routeFam opt : Nat)
+    (es : List PfxEnt) (k : Nat) (h : setFam = some routeFam) :
+    pfxCondCode setFam routeFam opt es k = pfxCondModel opt es k := by
+  subst h; simp [pfxCondCode]
+
+/-- `Stmt.matches` evaluates exactly `pfxCondModel` for its prefix-set clause -/
+example (es : List PfxEnt) (opt : Nat) (r : Cand) :
+    ({ pfxSet := some es, pfxOpt := opt } : Stmt).matches 0 r = pfxCondModel opt es r.pfx := by
+  simp [Stmt.matches, pfxCondModel]
+
 /-! ## import side -/
 
 /-- the modelled import policy keeps a route's key (source, path-id) -/
